@@ -487,29 +487,54 @@ fn socket_io(c: &mut Ctx<'_>, real: &mut Real, rng: &mut Rng) -> Result<(), Watc
         c.fail(&format!("getsockopt-result:{kind}"), format!("SO_SNDBUF after setting {v}: a10 {got:?}, getsockopt {out}"));
     }
     c.case(&format!("sockopt:{kind}"), format!("sndbuf={v}"));
-    // socket names vs getsockname(2)/getpeername(2) (stream pairs are unnamed Unix sockets; the
-    // length the kernel reports is what tells unnamed from named).
-    for (which, peer) in [("local_addr", false), ("peer_addr", true)] {
-        let got: std::io::Result<std::os::unix::net::SocketAddr> =
-            if peer { real.block_on(afd.peer_addr())? } else { real.block_on(afd.local_addr())? };
-        let mut st: libc::sockaddr_un = unsafe { std::mem::zeroed() };
-        let mut len = std::mem::size_of::<libc::sockaddr_un>() as libc::socklen_t;
-        let r = unsafe {
-            if peer {
-                libc::getpeername(b1.as_raw_fd(), std::ptr::from_mut(&mut st).cast(), &mut len)
-            } else {
-                libc::getsockname(b1.as_raw_fd(), std::ptr::from_mut(&mut st).cast(), &mut len)
+    // socket names vs getsockname(2)/getpeername(2) on the very same socket. Both ends get a
+    // unique abstract name first, so that the answer cannot be confused with that of any other
+    // socket of the process (a direct descriptor's index is also the number of some unrelated
+    // file descriptor).
+    {
+        use std::os::linux::net::SocketAddrExt as _;
+        static NAME: std::sync::atomic::AtomicU64 = std::sync::atomic::AtomicU64::new(0);
+        let n = NAME.fetch_add(1, std::sync::atomic::Ordering::Relaxed);
+        let names = [format!("a10v-{}-{n}-local", std::process::id()), format!("a10v-{}-{n}-peer", std::process::id())];
+        let bind = |fd: i32, name: &str| {
+            let mut st: libc::sockaddr_un = unsafe { std::mem::zeroed() };
+            st.sun_family = libc::AF_UNIX as libc::sa_family_t;
+            for (i, b) in name.bytes().enumerate() {
+                st.sun_path[1 + i] = b as libc::c_char;
             }
+            let len = std::mem::size_of::<libc::sa_family_t>() + 1 + name.len();
+            unsafe { libc::bind(fd, std::ptr::from_ref(&st).cast(), len as libc::socklen_t) == 0 }
         };
-        let posix_unnamed = r == 0 && len as usize <= std::mem::size_of::<libc::sa_family_t>();
-        match &got {
-            Ok(a) if r == 0 && a.is_unnamed() == posix_unnamed => {}
-            // The kernel has no socket-name command and a direct descriptor cannot be
-            // given to getsockname(2): an honest "unsupported" is not a difference.
-            Err(e) if direct && e.raw_os_error() == Some(libc::EOPNOTSUPP) => c.case("socket-name-unsupported:direct", which.to_string()),
-            _ => c.fail(&format!("socket-name-result:{kind}"), format!("{which}: a10 {got:?}, POSIX call returned {r} (unnamed={posix_unnamed}, length {len})")),
+        let named = bind((crate::ops::raw_of(&afd_regular) as i32), &names[0]) && bind(a2.as_raw_fd(), &names[1]);
+        for (which, peer) in [("local_addr", false), ("peer_addr", true)] {
+            let got: std::io::Result<std::os::unix::net::SocketAddr> =
+                if peer { real.block_on(afd.peer_addr())? } else { real.block_on(afd.local_addr())? };
+            // POSIX on the regular descriptor of the same socket.
+            let mut st: libc::sockaddr_un = unsafe { std::mem::zeroed() };
+            let mut len = std::mem::size_of::<libc::sockaddr_un>() as libc::socklen_t;
+            let rfd = (crate::ops::raw_of(&afd_regular) as i32);
+            let r = unsafe {
+                if peer {
+                    libc::getpeername(rfd, std::ptr::from_mut(&mut st).cast(), &mut len)
+                } else {
+                    libc::getsockname(rfd, std::ptr::from_mut(&mut st).cast(), &mut len)
+                }
+            };
+            let off = std::mem::size_of::<libc::sa_family_t>();
+            let posix: Vec<u8> = if r == 0 && len as usize > off { st.sun_path[..len as usize - off].iter().map(|b| *b as u8).collect() } else { Vec::new() };
+            let same = |a: &std::os::unix::net::SocketAddr| match a.as_abstract_name() {
+                Some(nm) => posix.first() == Some(&0) && &posix[1..] == nm,
+                None => a.is_unnamed() && posix.is_empty(),
+            };
+            match &got {
+                Ok(a) if r == 0 && same(a) => {}
+                // The kernel has no socket-name command and a direct descriptor cannot be
+                // given to getsockname(2): an honest "unsupported" is not a difference.
+                Err(e) if direct && e.raw_os_error() == Some(libc::EOPNOTSUPP) => c.case("socket-name-unsupported:direct", which.to_string()),
+                _ => c.fail(&format!("socket-name-result:{kind}"), format!("{which}: a10 {got:?}, the POSIX call on the same socket returned {r} with name {:?}", String::from_utf8_lossy(&posix))),
+            }
+            c.case(&format!("socket-name:{kind}"), format!("{which} named={named}"));
         }
-        c.case(&format!("socket-name:{kind}"), which.to_string());
     }
     // shutdown
     let how = *rng.pick(&[std::net::Shutdown::Write, std::net::Shutdown::Read, std::net::Shutdown::Both]);
